@@ -167,10 +167,10 @@ def cases(tier):
             (("cgmy12", "cgmy12"), {"kind": "clayton", "theta": 0.7, "eta": 0.3}, {"kind": "fixed", "h": 0.1, "n": 3}, False),
             (("cgmy12", "hem2"), {"kind": "clayton", "theta": 3.0, "eta": 0.0}, {"kind": "fixed", "h": 0.2, "n": 3}, False),
         ]
-    for pair, cop, g, exp in diff:
-        out.append({"sub": "copula", "model": {"margins": list(pair), "copula": cop, "exp": exp}, "rep": None,
-                    "grid": dict(g, refine=0), "diffusion": True})
-    return out
+    # listed first only so that these few slow cases (5 - 30 s each) overlap with the rest of the sweep
+    slow = [{"sub": "copula", "model": {"margins": list(pair), "copula": cop, "exp": exp}, "rep": None,
+             "grid": dict(g, refine=0), "diffusion": True} for pair, cop, g, exp in diff]
+    return slow + out
 
 
 # ----------------------------------------------------------------------------------------------------------------------
